@@ -1,11 +1,21 @@
 import Driver.Eval
+import Driver.Oracle
 open RosedVerif.Driver
+
+def handle (l : String) : String :=
+  match l.splitOn "|" with
+  | id :: "oracle" :: pid :: kind :: rest =>
+    -- rest = args… ++ ["=>", go…]; the go result may itself contain '|'? no: results never do
+    match rest.idxOf? "=>" with
+    | some k => id ++ "|" ++ oracleLine pid kind (rest.take k) ("|".intercalate (rest.drop (k + 1)))
+    | none => id ++ "|skip:parse"
+  | _ => evalLine l
 
 partial def loop (h : IO.FS.Stream) (out : IO.FS.Stream) : IO Unit := do
   let line ← h.getLine
   if line.isEmpty then return ()
   let l := line.trimAsciiEnd.toString
-  if !l.isEmpty then out.putStrLn (evalLine l)
+  if !l.isEmpty then out.putStrLn (handle l)
   loop h out
 
 def main : IO Unit := do
